@@ -208,6 +208,9 @@ def exitH : Handler := fun inp impl => do
   let n ← inp.getObjValAs? Nat "hups"
   let endS ← inp.getObjValAs? String "end"
   let again := (inp.getObjValAs? String "again").toOption.getD ""
+  -- rush: the terminating event is sent right after the last SIGHUP. The prediction is the one for signals handled
+  -- in turn (`sequential`); a signal lost to the capacity-1 channel shows as a failure of its own class
+  let rush := (inp.getObjValAs? Bool "rush").toOption.getD false && n > 0
   let ev : String → Except String Ev := fun s => match s with
     | "TERM" => .ok (.sig .term) | "INT" => .ok (.sig .int) | "exit" => .ok .exitCall | "fatal" => .ok .exitCall
     | s => .error s!"unknown event {s}"
@@ -239,7 +242,7 @@ def exitH : Handler := fun inp impl => do
     -- handler once, with its signal; the process ended, in time, after the handlers had finished
     let sp := ign && cs.length == k && cs.all (· == want) && ex == "in-time" && dr
     let base := (match endS with | "TERM" => "sigterm" | "INT" => "sigint" | "exit" => "exit-call" | _ => "fatal-call")
-      ++ (if n > 0 then "-after-sighup" else "") ++ (if again != "" then "+second-event" else "")
+      ++ (if rush then "-right-after-sighup" else if n > 0 then "-after-sighup" else "") ++ (if again != "" then "+second-event" else "")
     let tag := if !ign then base ++ ":sighup-not-ignored" else if cs.length != k || !cs.all (· == want) then base ++ ":handler-not-called"
                else if ex != "in-time" then base ++ ":process-does-not-end" else if !dr then base ++ ":not-drained" else base
     return ({ model := m, agree := m == core, spec := sp, nontrivial := n > 0 || again != "" || k > 1, tag := tag } : Verdict).toJson
